@@ -380,6 +380,9 @@ CHECK = {
     ],
     "clauses": [
         Clause("transparent", "cbin reader == bin reader for every slice; compress+decompress = identity", cases=trans_cases, check=trans_check),
+        Clause("long-reads", "compressed and uncompressed recording longer than every block size mined from the reader's source: strided / reversed slices against NumPy indexing",
+               cases=lambda tier, seed: __import__("checks.c01", fromlist=["x"]).long_cases(tier, seed),
+               check=lambda case: __import__("checks.c01", fromlist=["x"]).long_check(case)),
         Clause("entry-points", "bin / cbin / meta path x which files exist", cases=entry_cases, check=entry_check),
         Clause("faults-from-bin", "histories with crashes starting from an uncompressed recording", run=_mk("bin"), replay=_replay),
         Clause("faults-from-cbin", "histories with crashes starting from a compressed recording", run=_mk("cbin"), replay=_replay),
